@@ -266,7 +266,7 @@ pub fn run(tier: Tier) -> i32 {
     #[allow(non_snake_case)]
     let INSTANTS: &[i64] = &instants;
     let mut run = Run::new("C06", tier, "exploration");
-    run.rule = "(i) every RFC 3339 offset -12:00..+14:00 in 15-minute steps x 12 instants x 0..9 fraction digits (+ Z / +00:00 / -00:00) through three constructors: rejected or exact instant; (i') 27 malformed texts and 14 zone names that name no zone: error or preserved instant, never a panic; (ii) every in-model zone x every offset transition 1980-2060 x {t-3601,t-1,t,t+1,t+3599} + a lattice, through parse_from_rfc3339_with_timezone (UTC and local spelling), the chrono conversions, timezone::make_date_time_with_tz (city and full name, instant given at three offsets), make_date_time, the C API constructor from UTC date + time + zone with its date/time/zone getters, and (iii) both codecs with 0/3/6/9 fraction digits; non-trivial = distinct (zone, instant, digits) / distinct text".into();
+    run.rule = "(i) every RFC 3339 offset -12:00..+14:00 in 15-minute steps x 12 instants x 0..9 fraction digits (+ Z / +00:00 / -00:00) through three constructors: rejected or exact instant; (i'') the leap second 23:59:60 UTC of 2015-06-30 and 2016-12-31 spelled at every half-hour offset, and as a value in every zone through both codecs; (i') 27 malformed texts and 14 zone names that name no zone: error or preserved instant, never a panic; (ii) every in-model zone x every offset transition 1980-2060 x {t-3601,t-1,t,t+1,t+3599} + a lattice, through parse_from_rfc3339_with_timezone (UTC and local spelling), the chrono conversions, timezone::make_date_time_with_tz (city and full name, instant given at three offsets), make_date_time, the C API constructor from UTC date + time + zone with its date/time/zone getters, and (iii) both codecs with 0/3/6/9 fraction digits; non-trivial = distinct (zone, instant, digits) / distinct text".into();
     run.assume("chrono_tz offsets are the reference for each zone's local offset (trusted base)");
     run.assume("in-model zone = city name (text after the first '/') designates no zone with different rules under exact or region-prefixed resolution");
     crate::engine::quiet_panics();
@@ -284,6 +284,13 @@ pub fn run(tier: Tier) -> i32 {
                     texts.push(rfc3339_text(t, nanos, 0, digits, "").replace("+00:00", "-00:00"));
                 }
             }
+        }
+    }
+    // leap seconds: 23:59:60 UTC spelled at every whole-hour and half-hour offset
+    for q in -24i32..=28 {
+        for digits in [0usize, 3, 9] {
+            texts.push(rfc3339_text(1_483_228_799, 1_000_000_000 + nanos_for(digits), q * 1800, digits, ""));
+            texts.push(rfc3339_text(1_435_708_799, 1_000_000_000 + nanos_for(digits), q * 1800, digits, "Z"));
         }
     }
     let l = par_for(texts.len(), |i, local| {
@@ -420,6 +427,16 @@ pub fn run(tier: Tier) -> i32 {
                 run_zoned(zone, t, digits, local);
             }
         }
+        // a leap second (2016-12-31T23:59:60Z) in this zone, through the codecs
+        for &digits in &DIGITS {
+            local.eval();
+            let v = V::dt(1_483_228_799, 1_000_000_000 + nanos_for(digits), zone);
+            let r = super::c01::zinc_roundtrip(&v).map_err(|(s, d)| (format!("zinc:{s}"), d)).and_then(|_| super::c02::hayson_roundtrip(&v).map_err(|(s, d)| (format!("hayson:{s}"), d)));
+            if let Err((stage, d)) = r {
+                local.fail(&format!("{stage}:leap-second"), json!({"zone": zone, "leap_digits": digits}), d);
+            }
+            local.count("leap-second-round-trips");
+        }
     });
     run.absorb(l);
     run.require(run.counter("rfc3339-texts") > 10_000, "too few RFC 3339 texts");
@@ -458,6 +475,12 @@ pub fn replay(case: &J) -> Verdict {
         return check_rfc3339(t).map_err(|(s, d)| (format!("{s}:{}", offset_class(off)), d));
     }
     let zone = case["zone"].as_str().unwrap_or("UTC");
+    if let Some(digits) = case["leap_digits"].as_u64() {
+        let v = V::dt(1_483_228_799, 1_000_000_000 + nanos_for(digits as usize), zone);
+        return super::c01::zinc_roundtrip(&v)
+            .map_err(|(s, d)| (format!("zinc:{s}:leap-second"), d))
+            .and_then(|_| super::c02::hayson_roundtrip(&v).map_err(|(s, d)| (format!("hayson:{s}:leap-second"), d)));
+    }
     let secs = case["secs"].as_i64().unwrap_or(0);
     let digits = case["digits"].as_u64().unwrap_or(0) as usize;
     check_zoned(zone, secs, digits).map_err(|(s, d)| (zone_sig(&s, zone, secs, digits), d))
